@@ -528,6 +528,28 @@ def manifest_task(item):
                 out_v.append(viol('manifest-set:%s' % name, 'manifest of %s lists %r, a real run creates %r' % (name, sorted(b.manifest)[:12], real_files[:12]), inputs))
             else:
                 oc['manifest-same'] += 1
+            # the same manifest run into an output folder that does not exist yet (backends that read no template from it)
+            args_ = opts.get(name, impl.BACKEND_RUNS[name])
+            if not any(a in impl.TEMPLATES for a in args_):
+                n += 1
+                d2 = explore.fresh_dir('c18n')
+                try:
+                    target = os.path.join(d2, 'not', 'yet', 'there')
+                    b2 = impl.run_backend(impl.compile_specs(specs).api, name, args_, target, manifest=True)
+                    made = sorted(impl.read_tree(d2))
+                finally:
+                    shutil.rmtree(d2, ignore_errors=True)
+                inputs2 = dict(inputs, output_folder='does not exist before the run')
+                if not b2.ok:
+                    out_v.append(viol('manifest-outcome:%s:new-folder' % name, 'manifest run of %s into a new folder failed: %s' % (name, b2.identity), inputs2))
+                elif made:
+                    out_v.append(viol('manifest-run-created-files:%s:new-folder' % name, 'the manifest run of %s into a new folder created %r' % (name, made), inputs2))
+                elif sorted(b2.manifest) != real_files:
+                    oc['manifest-differs'] += 1
+                    out_v.append(viol('manifest-set:%s:new-folder' % name, 'manifest of %s for an output folder that does not exist yet lists %r, a real run creates %r' % (
+                        name, sorted(b2.manifest)[:12], real_files[:12]), inputs2))
+                else:
+                    oc['manifest-same:new-folder'] += 1
     # through the command line for one backend per model
     n += 1
     d = explore.fresh_dir('c18c')
